@@ -120,7 +120,7 @@ class _geom1d:
         bins = bins_of(attr(old.self, "_binnings")[0])
         f = F(old.self)
         d, s, w = elems(result["densities"]), elems(result["bin_sizes"]), elems(result["bin_widths"])
-        return And(*[And(s[k] == bins[k][1] - bins[k][0], w[k] == s[k], d[k] * s[k] == f[k]) for k in range(len(bins))])
+        return And(*[And(s[k] == bins[k][1] - bins[k][0], w[k] == s[k], close(d[k] * s[k], f[k])) for k in range(len(bins))])
 
     @ensures("edges_centres_widths_consistent")
     def _(a, old, result):
@@ -141,7 +141,7 @@ class _geom1d:
     @ensures("errors_are_roots_of_errors2_and_nothing_changes")
     def _(a, old, result):
         e2, e = E(old.self), elems(result["errors"])
-        return And(*[And(e[k] >= 0, e[k] * e[k] == e2[k]) for k in range(len(e))], same_hist(old.self, a.self))
+        return And(*[And(e[k] >= 0, close(e[k] * e[k], e2[k])) for k in range(len(e))], same_hist(old.self, a.self))
 
 
 @contract(HNDK + ".bin_sizes", props=["C16"], name="HistogramND geometry")
@@ -187,7 +187,7 @@ class _geomnd:
             for ax, k in enumerate(cell):
                 size = size * (bs[ax][k][1] - bs[ax][k][0])
             cs.append(s[pos] == size)
-            cs.append(d[pos] * size == f[pos])
+            cs.append(close(d[pos] * size, f[pos]))
             tot = tot + size
         cs.append(result["total_size"] == tot)
         return And(*cs)
